@@ -197,6 +197,30 @@ def check(tier, seed, replay=None):
     for j, (txt, inp) in enumerate(bags):
         val = EL.observed_value(obs[len(items) + j])
         recs.append({"case": len(items) + j, "kind": "bag", "inp": enc(inp)["a"], "out": val if val.get("t") == "arr" else {"t": "arr", "a": []}})
+    # (vii) the same expression node evaluated again and again - over the elements of a list and over the records of one run - on arguments that
+    #       make it fail half-way, yield nothing, or succeed: an evaluation owes nothing to the one before
+    mdescs = []
+    if not replay:
+        mitems = []
+        uni = ['["a", 1]', '["b", "c"]', '[]', '"abc"', '[1, 2, 3]', '{"a": 1}', '5', 'null', '["x"]', '[["p", "q"], 1]', '"1 x"', '"[1, 2"', '"12"']
+        fns = ["(join .)", "(join . \"-\")", "(sum .)", "(sort .)", "(sort_unique .)", "(first .)", "(size .)", "(concat .)".replace("(concat .)", "(concat . \"!\")"), "(stringify .)", "(parse .)",
+               "(keys .)", "(reverese .)", "(take . 1)", "(pop .)", "(flat_map . .)", "(all .)", "(group_by . (stringify .))", "(sort_by . .)", "(head . 2)", "(split . \"b\")",
+               "(map . (join .))", "(fold . \"\" (concat .so_far (stringify .value)))", "(set \"v\" . (size :v))", "(| . (sort .) (first .))"]
+        for f in fns:
+            # every function over the whole universe, there and back: each kind of argument is met after each other kind
+            allv = [PL.parse_ast(u) for u in uni]
+            mitems.append((f, allv + allv[::-1]))
+            mitems.append(("(map . %s)" % f, [("arr", allv + allv[::-1])]))
+        for k in range(0 if quick else 2000):
+            f = rnd.choice(fns)
+            inputs = [PL.parse_ast(rnd.choice(uni)) for _ in range(rnd.choice([2, 3, 5]))]
+            mitems.append((f, inputs))
+            els = [rnd.choice(uni) for _ in range(rnd.choice([2, 3, 4]))]
+            mitems.append(("(map . %s)" % f, [("arr", [PL.parse_ast(e) for e in els])]))
+        mrecs, mdescs, mruns = EL.multi_eval_records(jvh, table, mitems, len(recs))
+        recs += mrecs
+        chk.notes["multi_record_evaluations"] = len(mrecs)
+    nfirst = len(recs) - len(mdescs)
     flags, res = run_trace_spec("Trace_Expr", recs, "c04", nproc=4 if quick else 14)
     skipped = {c for k, c, w in flags if k == "SKIP"}
     chk.traces = len(recs) - len(skipped)
@@ -210,6 +234,12 @@ def check(tier, seed, replay=None):
                     "stdout": bytes.fromhex(obs[i]["out"]).decode("utf-8", "replace")[:200], "compared": i not in skipped})
     for kind, case, what in flags:
         if kind == "SKIP":
+            continue
+        if case >= nfirst:
+            d = mdescs[case - nfirst]
+            if kind != "MISMATCH":
+                raise ToolError("%s flag from Trace_Expr on %s: %s" % (kind, d["expression"], what))
+            chk.violation("%s, record %d of %s: %s; %s" % (d["expression"], d["record"], d["inputs"], d["stdout"].strip()[:200], what[:300]), {"recipe": d, "flag": what})
             continue
         if case >= len(items):
             txt, inp = bags[case - len(items)]
